@@ -218,7 +218,7 @@ def sibling_guard(ctx):
 
 def dataflow(ctx, ex, where):
     rep = ctx.rep
-    for shape, symmetric in (((), False), ((3,), False), ((3,), True), ((2, 2), False), ((1,), True)):
+    for shape, symmetric in (((), False), ((3,), False), ((3,), True), ((2, 2), False), ((1,), True), ((3, 2), True), ((1, 3), True)):
         holder = {}
 
         def body(s, shape=shape, symmetric=symmetric):
@@ -255,7 +255,8 @@ def dataflow(ctx, ex, where):
                 bad_mut.append({'writes': writes, 'unchanged': same, 'result_shares_input_buffer': shares})
             eshape = (max(n, 1),) if shape == () else shape
             want_shape = eshape
-            if symmetric and n > 1:
+            trimmed = symmetric and eshape[0] > 1          # (the trimming is along the first axis, when it has more than one entry)
+            if trimmed:
                 want_shape = (eshape[0] - 1,) + tuple(eshape[1:])
             for nm, arr in (('result', result), ('abserr', abserr)):
                 sh = arr.shape if isinstance(arr, Arr) else ()
@@ -264,20 +265,24 @@ def dataflow(ctx, ex, where):
             for e in (abserr.items() if isinstance(abserr, Arr) else [abserr]):
                 if not (isinstance(e, DV) and e.sign in ('nonneg', 'pos')):
                     bad_sign.append(repr(e))
-            if not (symmetric and n > 1):
+            if not trimmed:
                 for nm, arr in (('result', result), ('abserr', abserr)):
                     for c, e in enumerate(arr.items() if isinstance(arr, Arr) else [arr]):
                         foreign = [t for t in tags_of(e) if t[1] != c]
                         if foreign:
                             bad_dep.append('%s[%d] depends on %s' % (nm, c, sorted(foreign)[:3]))
             else:
-                # symmetric: result[c] from elements c, abserr[c] from elements c+1
-                for c, e in enumerate(result.items()):
+                # symmetric: the trimming is along the first axis - result[c] from element c, abserr[c] from the element one
+                # row further (flat index c + number of elements per row)
+                per_row = 1
+                for d_ in eshape[1:]:
+                    per_row *= d_
+                for c, e in enumerate(result.items() if isinstance(result, Arr) else [result]):
                     if [t for t in tags_of(e) if t[1] != c]:
                         bad_dep.append('result[%d] depends on other elements' % c)
-                for c, e in enumerate(abserr.items()):
-                    if [t for t in tags_of(e) if t[1] != c + 1]:
-                        bad_dep.append('abserr[%d] is not the estimate of element %d' % (c, c + 1))
+                for c, e in enumerate(abserr.items() if isinstance(abserr, Arr) else [abserr]):
+                    if [t for t in tags_of(e) if t[1] != c + per_row]:
+                        bad_dep.append('abserr[%d] is not the estimate of element %d' % (c, c + per_row))
         rep.check(not bad_mut, 'R-NOMUTATE', 'extrapolation.dea3', where, {'problems': bad_mut[:2]},
                   'inputs unmodified, result in fresh storage', label, key='nomutate')
         rep.check(not bad_sign, 'R-NONNEG', 'extrapolation.dea3', where, {'not_provably_nonneg': bad_sign[:3]},
